@@ -244,6 +244,12 @@ def run(ctx):
     r1.check(enc_ok and dec_ok, "src/gwf/backends/local.py::wire-state-encoding", "states travel by member name (encoder .name / decoder LocalStatus[name])",
              "the pool encodes task states differently from how the client decodes them", enc.where)
 
+    from .evalhelpers import cached_witness, report_witness
+    from .schedmodel import cluster_witness
+    report_witness(r1, "src/gwf/backends::<X>Ops.get_job_states::scheduler-model", "src/gwf/backends/slurm.py:1", cached_witness(ctx, "cluster", cluster_witness),
+                   "against a model of squeue/sacct/qstat/bjobs over a history (purged, running, failed, pending, completed with a failed step, held): each id gets the "
+                   "class of its own job, in either file order, with accounting on and off", select=lambda d: d.startswith("[states]") and "changes the queue" not in d)
+
     # ------------------------------------------------------------------ R2 key agreement
     r2 = ctx.rule("R2", "status reads the state of the id written at the last submit; ids agree between writer and reader", min_instances=6)
     tb = idx.cls(f"{BASE}:TrackingBackend")
@@ -272,6 +278,11 @@ def run(ctx):
         r2.check(bool(init["queried"]) and sorted(init["queried"][-1]) == sorted(disk.values()) and isinstance(init["states"], dict) and set(init["states"]) == set(disk.values()),
                  icon + "::query", "all tracked ids are passed to ops.get_job_states and its answer becomes the state table",
                  f"tracked ids {sorted(disk.values())}: ops.get_job_states is asked about {init['queried']}, the state table starts as {init['states']}", tb.where)
+        init_z = eval_backend_init(ctx, {"A": 0, "B": 1})
+        r2.check(not isinstance(init_z, str) and init_z["queried"] and sorted(init_z["queried"][-1]) == [0, 1] and isinstance(init_z["states"], dict) and set(init_z["states"]) == {0, 1},
+                 icon + "::opaque-ids", "ids are opaque: the local pool's task 0 is asked about like any other",
+                 f"tracked ids [0, 1] (the first two tasks of a fresh local pool): ops.get_job_states is asked about {init_z if isinstance(init_z, str) else init_z['queried']}: an id is "
+                 "dropped because of its value, so that target's state is never the state of its job", tb.where)
         r2.check([p_ for p_, m_ in init["opened"] if "w" not in m_][:1] == [want_path], icon + "::path", "state file is <project>/.gwf/<backend name>-backend-tracked.json",
                  f"the tracked-jobs file is read from {[p_ for p_, m_ in init['opened']]}, expected {want_path}: not a per-backend file under the project's .gwf directory", tb.where)
     from .c07 import rule_tracked_dump
